@@ -49,7 +49,7 @@ theorem calculateWeekdate_ok (y w d : Int) (hy : 1 ≤ y ∧ y ≤ 9999) (hw : 1
 
 theorem parseIsodate_render (df : DateForm) (x : Fields) (t : Bytes)
     (hwf : dateWF true df x = true) (hr1 : 1 ≤ dateOrdinal df x) (hr2 : dateOrdinal df x ≤ maxOrdinal)
-    (ht : TailOK t) (hc : df.complete = true ∨ t = []) :
+    (ht : df = .ordBas → TailOK t) (hc : df.complete = true ∨ t = []) :
     parseIsodate (renderDate df x ++ t) = .ok (fromOrdinal (dateOrdinal df x), t) := by
   cases df with
   | calExt =>
@@ -119,7 +119,7 @@ theorem parseIsodate_render (df : DateForm) (x : Fields) (t : Bytes)
       unfold daysInYear; split <;> simp
     have hv : validDate x.year 1 1 = true := by
       simp [validDate, ValidDate, ValidYMD, daysInMonth]; omega
-    simp only [parseIsodate, common_ordBas x t ht (by omega), uncommon_ordBas x t (by omega) (by omega), ordinalResult]
+    simp only [parseIsodate, common_ordBas x t (ht rfl) (by omega), uncommon_ordBas x t (by omega) (by omega), ordinalResult]
     rw [if_neg (by omega)]
     simp only [mkDateOrd, hv, if_true, Except.bind, ordChecked]
     rw [if_neg (by omega)]
@@ -193,7 +193,7 @@ theorem mkDatetime_ok (y m d hh mm ss us : Int) (tz : Option Off) (hv : ValidDat
   simp [this]
 
 theorem isoparse_render_core (f : IsoForm) (x : Fields) (cfg : Option Nat)
-    (hw : WFields f x) (hsep : f.time ≠ .none → isDigit f.sep = false)
+    (hw : WFields f x) (hsep : f.time ≠ .none → f.date = .ordBas → isDigit f.sep = false)
     (hcfg : cfg = none ∨ cfg = some f.sep) :
     isoparse cfg (render f x) = .ok (denote f x) := by
   unfold WFields WFieldsB at hw
@@ -209,7 +209,7 @@ theorem isoparse_render_core (f : IsoForm) (x : Fields) (cfg : Option Nat)
     subst hof
     simp only [denoteOrdinal, timeShown] at hr1 hr2
     simp at hr1 hr2
-    have hp := parseIsodate_render df x [] hdw hdp hr2 (Or.inl rfl) (Or.inr rfl)
+    have hp := parseIsodate_render df x [] hdw hdp hr2 (fun _ => Or.inl rfl) (Or.inr rfl)
     rw [List.append_nil] at hp
     have hv := fromOrdinal_valid _ hdp hr2
     simp only [isoparse, render, hp, bind, Except.bind]
@@ -224,7 +224,7 @@ theorem isoparse_render_core (f : IsoForm) (x : Fields) (cfg : Option Nat)
     have hrd : dateOrdinal df x ≤ maxOrdinal := by
       simp only [denoteOrdinal] at hr2; split at hr2 <;> omega
     have hp := parseIsodate_render df x (sep :: (renderTime tf x ++ renderOff of x)) hdw hdp hrd
-      (Or.inr ⟨sep, _, rfl, hsd⟩) (Or.inl hcomp)
+      (fun hd => Or.inr ⟨sep, _, rfl, hsd hd⟩) (Or.inl hcomp)
     have hv := fromOrdinal_valid _ hdp hrd
     have hrend : render ⟨df, tf, of, sep⟩ x =
         renderDate df x ++ (sep :: (renderTime tf x ++ renderOff of x)) := by
